@@ -17,7 +17,7 @@ cfg keys
   nlev       number of levels (test0d/vdp: same problem on every level, identity space transfer, node counts
              `nodes_per_level`; heat*: `nvars` per level, mesh_to_mesh)
   finter     base_transfer_params finter
-  dt, t0, Tend, maxiter, restol, nsweeps(list per level), residual_type
+  dt, t0, Tend, maxiter, restol, nsweeps(list per level), QI (str or list per level), residual_type
   mssdc_jac, predict_type, all_to_done
   adaptivity {e_tol, flavor?} | None;  restarting {max_restarts, restart_from_first_step, crash_after_max_restarts} | None;
   spread     {spread_from_first_restarted, overwrite_to_reach_Tend} | None
@@ -210,6 +210,8 @@ def build(cfg, mpi_sweeper, node_comm=None, useMPI=False):
     d['sweeper_class'] = sc
     sp = {'quad_type': cfg.get('quad_type', 'RADAU-RIGHT'), 'QI': cfg.get('QI', 'IE'),
           'initial_guess': cfg.get('initial_guess', 'spread')}
+    if isinstance(sp['QI'], list):     # level-dependent preconditioner
+        sp['QI'] = sp['QI'][0] if nlev == 1 else list(sp['QI'][:nlev])
     if cfg.get('do_coll_update'):
         sp['do_coll_update'] = True
     if imex:
